@@ -3,3 +3,9 @@ pub mod cs;
 pub mod engine;
 pub mod golden;
 pub mod kinds;
+pub mod checks;
+pub mod layout;
+pub mod model;
+pub mod refclass;
+pub mod rs;
+pub mod sweep;
